@@ -188,10 +188,22 @@ def snapshot(root):
   return {'canon': graphs.canon(root), 'ids': ids, 'tags': tag_state}
 
 
+def _encode(root):
+  from harness.props import C07
+  req, enc = graphs.encode(root, with_defaults=False)
+  return req, enc, [C07.project_obj(o) for o in req['objs']]
+
+
 def execute(case):
   root = make_root(case)
   before = snapshot(root)
   obs = {'api': case['api']}
+  try:
+    req, enc, _ = _encode(root)
+    req.update({'p': 'graph', 'q': ['heap']})
+    ids_before = [id(x) for x in enc.keep]
+  except Exception:
+    req = None
   try:
     apis()[case['api']](root)
     obs['outcome'] = 'returned'
@@ -201,11 +213,26 @@ def execute(case):
   obs['unchanged'] = before == after
   if not obs['unchanged']:
     obs['changed'] = [k for k in before if before[k] != after[k]]
-  return obs, None
+  if req is not None:
+    try:
+      _, enc_after, proj = _encode(root)
+      obs['m_after'] = proj
+      obs['m_same_objects'] = [id(x) for x in enc_after.keep] == ids_before
+    except Exception as e:
+      obs['m_after'] = f'encoding raised {type(e).__name__}'
+  return obs, req
 
 
 def compare(real, model):
-  return []
+  if model is None or 'm_after' not in real:
+    return []
+  diffs = []
+  if real['m_after'] != model.get('heap'):
+    diffs.append((f"{real['api']}: heap of the input after the call vs applyEffect (unchanged)",
+                  real['m_after'], model.get('heap')))
+  elif not real.get('m_same_objects'):
+    diffs.append((f"{real['api']}: objects of the input were replaced by equal new ones", 'identities differ', 'same'))
+  return diffs
 
 
 def oracle(case, real):
